@@ -144,7 +144,9 @@ impl<T: RealNumber, M: Matrix<T>> InteriorPointOptimizer<T, M> {
 
             for i in 0..p {
                 self.prb[i] = T::two() + self.d1[i];
-                self.prs[i] = self.prb[i] * self.d1[i] - self.d2[i].powi(2);
+                // prb*d1 - d2^2 = 2*d1 + (d1 - d2)*(d1 + d2) = 2*d1 + 4*(q1*q2/t)^2, free of cancellation
+                let q12 = q1[i] * q2[i] / t;
+                self.prs[i] = T::two() * self.d1[i] + T::from_f64(4.0).unwrap() * q12 * q12;
             }
 
             let normg = grad.norm2();
@@ -153,7 +155,13 @@ impl<T: RealNumber, M: Matrix<T>> InteriorPointOptimizer<T, M> {
                 pcgtol *= min_pcgtol;
             }
 
-            let error = self.solve_mut(x, &grad, &mut dxu, pcgtol, pcgmaxi)?;
+            let mut error = self.solve_mut(x, &grad, &mut dxu, pcgtol, pcgmaxi)?;
+            if !error.is_finite() || (0..2 * p).any(|i| !dxu.get(i, 0).is_finite()) {
+                // the conjugate-gradient iteration broke down on a nearly singular Newton system (an iterate
+                // very close to the boundary u = |w|): fall back to the preconditioned gradient direction
+                self.solve_preconditioner(x, &grad, &mut dxu);
+                error = T::one();
+            }
             if error > pcgtol {
                 pitr = pcgmaxi;
             }
